@@ -513,7 +513,10 @@ func TestC15_Transient(t *testing.T) {
 		if successAt > k && mainNow == nil {
 			t.Fatalf("attempt %d is reported as a success although the main file was %s after attempt %d: the result holds %d commands (%s)", successAt, mainThen, k, len(db.Commands), where)
 		}
-		if successAt == 0 && k < cfg.MaxAttempts && (mainThen == "same" || mainThen == "rewritten") && (then == "repair" || (then == "missing" && which == "personal")) {
+		// (claimed only when an attempt was actually made after the repair: the statement allows "at most"
+		// the configured number of tries, so a loader that gives a malformed file up early and answers
+		// from the built-in fallback is within it - false alarm against such a tree, DESIGN section 10)
+		if successAt == 0 && k < cfg.MaxAttempts && out.Attempts > k && (mainThen == "same" || mainThen == "rewritten") && (then == "repair" || (then == "missing" && which == "personal")) {
 			t.Fatalf("before attempt %d every file was loadable (the %s file %s), yet no attempt succeeded; last error: %s (%s)", k+1, which, map[string]string{"repair": "had been repaired", "missing": "was merely absent"}[then], out.LastErr, where)
 		}
 		if successAt > 0 {
@@ -558,7 +561,7 @@ func TestC15_Transient(t *testing.T) {
 // is computed, not slept through, for dozens of steps.
 func TestC15_LongBudget(t *testing.T) {
 	rec := stat.For("C15")
-	rec.Rule("long budgets: a main file that stays malformed, MaxAttempts in [20,200], base delay from 1 ns to 1000 h, cap in {0, 1us, 50us, 200us}, factor in {1, 1.5, 2, 3, 10, 1e6}; a quarter of the cases with base 0 .. 1 h and a factor below 1, zero, negative, NaN, infinite or overflowing (0.5, 0.9, 0.999, 0, -2, NaN, +-Inf, 1e200, 1e308, 5e-324). Oracle: exactly MaxAttempts attempts, a non-empty fallback and no error; every wait within [0, cap] and never below the one before it.")
+	rec.Rule("long budgets: a main file that stays malformed, MaxAttempts in [20,200], base delay from 1 ns to 1000 h, cap in {0, 1us, 50us, 200us}, factor in {1, 1.5, 2, 3, 10, 1e6}; a quarter of the cases with base 0 .. 1 h and a factor below 1, zero, negative, NaN, infinite or overflowing (0.5, 0.9, 0.999, 0, -2, NaN, +-Inf, 1e200, 1e308, 5e-324). Oracle: between 1 and MaxAttempts attempts, a non-empty fallback and no error; every wait within [0, cap] and never below the one before it.")
 	rapid.Check(t, func(t *rapid.T) {
 		cfg := recovery.RetryConfig{
 			MaxAttempts:   rapid.OneOf(rapid.SampledFrom([]int{37, 38, 39, 40, 41, 63, 64, 65, 66, 100, 200}), rapid.IntRange(20, 120)).Draw(t, "attempts"),
@@ -595,7 +598,9 @@ func TestC15_LongBudget(t *testing.T) {
 		if err != nil || db == nil || len(db.Commands) == 0 {
 			t.Fatalf("loading ended with err=%v and no usable fallback (config %+v)", err, cfg)
 		}
-		if attempts != cfg.MaxAttempts {
+		// "at most the configured number of times": a loader that gives a malformed file up earlier is within
+		// the statement (demanding exactly MaxAttempts was a false alarm against such a tree, DESIGN section 10)
+		if attempts < 1 || attempts > cfg.MaxAttempts {
 			t.Fatalf("%d attempts on a file that stays malformed, configured %d (config %+v)", attempts, cfg.MaxAttempts, cfg)
 		}
 		prev := time.Duration(0)
